@@ -615,25 +615,36 @@ func checkTokenBucket(c *report.Ctx) {
 	}
 	if f := fn(c, bwP, "(*Bucket).produceTokens"); f != nil {
 		ok := false
+		var minFn *ssa.Function
+		builtinMin := false
 		for _, st := range an.Stores(f, bwP+".Bucket", "tokenCount") {
-			if cl, _ := an.CallOf(st.Val); cl != nil && an.Callee(cl) == bwP+".min64" {
-				a := cl.Call.Args
-				if bo, k := a[0].(*ssa.BinOp); k && bo.Op == token.ADD && loadOf(bwP+".Bucket", "tokenCount")(bo.X) && loadOf(bwP+".Bucket", "refillNumber")(bo.Y) && loadOf(bwP+".Bucket", "capacity")(a[1]) {
-					ok = true
-				}
+			cl, _ := an.CallOf(st.Val)
+			if cl == nil || len(cl.Call.Args) != 2 {
+				continue
+			}
+			a := cl.Call.Args
+			isSum := func(v ssa.Value) bool {
+				bo, k := v.(*ssa.BinOp)
+				return k && bo.Op == token.ADD && (loadOf(bwP+".Bucket", "tokenCount")(bo.X) && loadOf(bwP+".Bucket", "refillNumber")(bo.Y) || loadOf(bwP+".Bucket", "tokenCount")(bo.Y) && loadOf(bwP+".Bucket", "refillNumber")(bo.X))
+			}
+			isCap := loadOf(bwP+".Bucket", "capacity")
+			if !(isSum(a[0]) && isCap(a[1])) && !(isSum(a[1]) && isCap(a[0])) {
+				continue
+			}
+			// the function applied is a minimum: min64 of the pinned tree, any function that returns the smaller of
+			// its two arguments (decided per ordering), or the builtin
+			if bi, k := cl.Call.Value.(*ssa.Builtin); k && bi.Name() == "min" {
+				ok, builtinMin = true, true
+			} else if g := cl.Call.StaticCallee(); g != nil && isMinFunc(g) {
+				ok, minFn = true, g
 			}
 		}
-		c.Check("R-GUARD", an.FuncName(f)+"/capped-refill", "a refill adds the refill number and never exceeds the capacity", ok, fpos(f), 1, "tokenCount = min64(tokenCount+refillNumber, capacity): %v", ok)
-	}
-	if f := fn(c, bwP, "min64"); f != nil {
-		ok := false
-		facts := an.NewFacts(f)
-		for _, e := range an.Exits(f) {
-			if p, k := e.Vals[0].(*ssa.Parameter); k && p.Name() == "a" {
-				ok = facts.Holds(e.Ret.Block(), func(ft an.Fact) bool { r, k := an.AsRel(ft); return k && r.Op == token.LSS })
-			}
+		c.Check("R-GUARD", an.FuncName(f)+"/capped-refill", "a refill adds the refill number and never exceeds the capacity", ok, fpos(f), 1, "tokenCount = min(tokenCount+refillNumber, capacity): %v", ok)
+		what := "builtin min"
+		if minFn != nil {
+			what = an.FuncName(minFn)
 		}
-		c.Check("R-SHAPE", an.FuncName(f)+"/is-min", "min64 returns the smaller argument", ok, fpos(f), 1, "%v", ok)
+		c.Check("R-SHAPE", bwP+".min64/is-min", "the function that caps the refill returns the smaller argument", minFn != nil || builtinMin, fpos(f), 1, "%s", what)
 	}
 	if f := fn(c, bwP, "(*BandwidthLimitingWriter).Write"); f != nil {
 		facts := an.NewFacts(f)
@@ -767,4 +778,34 @@ func errTypeHeaderName(c *report.Ctx) string {
 		return s
 	}
 	return "Error-Type"
+}
+
+// isMinFunc: g has two integer parameters and returns the smaller one (decided by following its comparisons for
+// each ordering of the two).
+func isMinFunc(g *ssa.Function) bool {
+	if len(g.Params) != 2 || len(g.Blocks) == 0 {
+		return false
+	}
+	for _, pr := range [][2]int64{{-1, 0}, {0, 1}, {2, 5}, {1, 0}, {5, 2}, {0, -3}, {4, 4}} {
+		ret, resolve, ok := decideWalk(g, []int64{pr[0], pr[1]})
+		if !ok || len(ret.Results) != 1 {
+			return false
+		}
+		v := resolve(ret.Results[0])
+		switch {
+		case pr[0] < pr[1]:
+			if v != ssa.Value(g.Params[0]) {
+				return false
+			}
+		case pr[1] < pr[0]:
+			if v != ssa.Value(g.Params[1]) {
+				return false
+			}
+		default:
+			if v != ssa.Value(g.Params[0]) && v != ssa.Value(g.Params[1]) {
+				return false
+			}
+		}
+	}
+	return true
 }
